@@ -452,6 +452,23 @@ func runNilViews(c *core.Ctx, g *model.GenPkg) {
 				if _, ok := isBackDeref(ro)(x); ok {
 					has = true
 				}
+				// or delegates to another mutator of the same view, which is held to this rule itself
+				if call, ok := x.(*ast.CallExpr); ok {
+					if sel, ok := call.Fun.(*ast.SelectorExpr); ok && isIdentObj(info, sel.X, ro) && sel.Sel.Name != mname {
+						for _, other := range muts {
+							if od := g.Funcs[n+"."+other]; sel.Sel.Name == other && od != nil {
+								// the delegate itself dereferences the backing pointer (no delegation chains)
+								oro := recvObj(info, od)
+								ast.Inspect(od.Body, func(y ast.Node) bool {
+									if _, ok := isBackDeref(oro)(y); ok {
+										has = true
+									}
+									return true
+								})
+							}
+						}
+					}
+				}
 				return true
 			})
 			if !has && !silent && alwaysPanics(fd.Body) {
